@@ -262,6 +262,12 @@ def cross_check(ctx, t):
     if dc != len(sb):
         raise CrossMismatch("KFoldInd.IndInv is not the set of reachable states: %d states satisfy it, %d are reachable"
                             % (dc, len(sb)))
+    # the comparison has teeth: a typed model with a seeded design bug does NOT have the same state set
+    rc, lw = vlib.tlc(ctx, "XC_KFoldInd", {"constants": dict(kc, Variant=q("wrongfold")), "invariants": ["Emit"]},
+                      workers=4, env=env, tag="XC_KFoldInd_wrongfold")
+    if rc != 0 or st_lines(lw) == sa:
+        raise vlib.ToolError("cross-check is blind: KFoldInd with Variant=wrongfold has the state set of KFold.tla (rc=%d)" % rc)
+    res["kfold"]["states_typed_wrongfold_differ"] = len(st_lines(lw) ^ sa)
     res["smo"] = []
     for L in t["xc_smo"]:
         sc = {"L": str(L), "Variant": q("ok")}
@@ -281,6 +287,12 @@ def cross_check(ctx, t):
         if sa != sb or not sa:
             raise CrossMismatch("Smo.tla and SmoInd.tla differ for L=%d: %d vs %d states, e.g. %s"
                                 % (L, len(sa), len(sb), sorted(sa ^ sb)[:2]))
+        if L == t["xc_smo"][0]:
+            rc, lw = vlib.tlc(ctx, "XC_SmoInd", {"constants": dict(sc, Variant=q("nobounds")), "invariants": ["Emit"]},
+                              workers=4, tag="XC_SmoInd_nobounds")
+            if rc != 0 or st_lines(lw) == sa:
+                raise vlib.ToolError("cross-check is blind: SmoInd with Variant=nobounds has the state set of Smo.tla (rc=%d)" % rc)
+            res["smo"][-1]["states_typed_nobounds_differ"] = len(st_lines(lw) ^ sa)
     return res
 
 
@@ -314,8 +326,11 @@ def run(ctx):
     main = kfoldidx_obs(kfv)
     for c in t["kfoldind"]:
         # ("offbyone" indexes out of the buffer: pointwise model only)
+        # (the involution lemma on arbitrary contents is the slowest query and is proved for every length by TLAPS:
+        #  it is run on the first, smallest configuration only)
         main += [o for o in kfoldind_obs("ok" if kfv == "offbyone" else kfv, c)
-                 if o["name"].split("_N")[0] not in t.get("kfoldind_skip", [])]
+                 if o["name"].split("_N")[0] not in t.get("kfoldind_skip", [])
+                 and (c is t["kfoldind"][0] or not o["name"].startswith("ind_lemma"))]
     for L in t["smoind"]:
         main += smoind_obs(smv, L)
     # sensitivity obligations (expected to FAIL); skipped when the whole run is on a broken variant
